@@ -20,7 +20,8 @@ RULE = (
 ASSUMPTIONS = ["dictionary key spellings of the 4076_201 helper are not pinned: the layer height value and the two "
                "coefficient lists must be present in each layer's entry"]
 GATES = ["msm_helper_checked", "harm_helper_checked", "other_checked", "reserved_msm_numbers_checked",
-         "harm_over_99_coefficients", "msm_empty_masks", "msm_64_cells"]
+         "harm_over_99_coefficients", "msm_empty_masks", "msm_64_cells", "harm_flat_checked",
+         "harm_flat_order_above_degree"]
 
 _IDX = re.compile(r"^(.*?)_(\d{2,3})$")
 
@@ -121,6 +122,65 @@ def check_harm(ctx, enc, params):
     ctx.case(enc.payload + b"harm", any(l[2] for l in layers))
 
 
+def check_harm_flat(ctx, layers_nm, seedtag):
+    """parse_4076_201 against the message's OWN flat attributes for arbitrary degree/order fields (order above the
+    degree included): whatever the decoder produced for a layer, the helper must return exactly that, in order."""
+    from pyrtcm import RTCMMessage
+    from pyrtcm.rtcmhelpers import parse_4076_201
+
+    from vf import bits as B
+
+    rng = random.Random(seedtag)
+    w = B.BitWriter()
+    w.put(4076, 12)
+    w.put(rng.getrandbits(3), 3)
+    w.put(201, 8)
+    w.put(rng.getrandbits(20 + 4 + 1 + 4 + 16 + 4 + 9), 58)
+    w.put(len(layers_nm) - 1, 2)
+    for n_1, m_1 in layers_nm:
+        w.put(rng.getrandbits(8), 8)
+        w.put(n_1, 4)
+        w.put(m_1, 4)
+        w.put(rng.getrandbits(16 * 40), 16 * 40)  # generous data: any count formula finds bits for a layer
+    payload = w.bytes() + bytes(rng.getrandbits(8) for _ in range(200))
+    payload = payload[:1023]
+    params = {"kind": "harmflat", "layers": [list(x) for x in layers_nm], "seedtag": seedtag}
+    try:
+        m = RTCMMessage(payload=payload)
+    except Exception:
+        ctx.hit("harmflat_unparseable")
+        return
+    try:
+        out = parse_4076_201(m)
+    except Exception as e:
+        ctx.violation("harm-helper-raised", f"layers (degree-1, order-1) {layers_nm}: parse_4076_201 raised "
+                      f"{type(e).__name__}: {e}", params)
+        return
+    g = {k: v for k, v in m.__dict__.items() if not k.startswith("_")}
+    entries = list(out.values()) if isinstance(out, dict) else list(out or [])
+    nl = g.get("IDF035", -1) + 1
+    if len(entries) != nl:
+        ctx.violation("harm-layer-count", f"layers {layers_nm}: helper returned {len(entries)} layers, message has {nl}",
+                      params)
+        return
+    for li, ent in enumerate(entries, 1):
+        for fld in ("IDF039", "IDF040"):
+            flat = []
+            i = 1
+            while f"{fld}_{li:02d}_{i:02d}" in g:
+                flat.append(g[f"{fld}_{li:02d}_{i:02d}"])
+                i += 1
+            lists = [list(v) for v in (ent.values() if isinstance(ent, dict) else ent) if isinstance(v, (list, tuple))]
+            if not any(l == flat for l in lists):
+                ctx.violation("harm-coefficients", f"layers {layers_nm}: layer {li} has {len(flat)} decoded {fld} attributes "
+                              f"but the helper returns lists of lengths {[len(l) for l in lists]}", params)
+                return
+    ctx.hit("harm_flat_checked")
+    if any(m_1 > n_1 for n_1, m_1 in layers_nm):
+        ctx.hit("harm_flat_order_above_degree")
+    ctx.case(payload + b"harmflat", True)
+
+
 def check_other(ctx, payload, tag, params):
     from pyrtcm import RTCMMessage
     from pyrtcm.rtcmhelpers import parse_4076_201, parse_msm
@@ -164,8 +224,11 @@ def run(ctx):
                 if j % 10 == 9:
                     force = {"DF394": (1 << 64) - 1, "DF395": 1 << rng.randrange(32), "DF396": (1 << 64) - 1}
                 enc = refmodel.build(identity, random.Random(seedtag), "random", "small", ms, force=force)
-                check_msm(ctx, identity, enc, rng.choice((1, 2)),
-                          {"kind": "msm", "identity": identity, "seedtag": seedtag, "mstrat": ms, "payload": enc.payload.hex()})
+                par = {"kind": "msm", "identity": identity, "seedtag": seedtag, "mstrat": ms, "payload": enc.payload.hex()}
+                first = rng.choice((1, 2))
+                check_msm(ctx, identity, enc, first, par)
+                if j % 2:  # the same payload under the other option right afterwards
+                    check_msm(ctx, identity, enc, 3 - first, par)
         elif identity == "4076_201":
             pass
         else:
@@ -193,6 +256,10 @@ def run(ctx):
             if len(enc.meta.get("layers", [])) != layers:
                 continue  # did not fit 1023 bytes with that many layers
             check_harm(ctx, enc, {"kind": "harm", "payload": enc.payload.hex()})
+    # helper vs the message's own flat attributes for arbitrary degree / order fields
+    for _ in range(ctx.n(600, 20000)):
+        nl = rng.randint(1, 3)
+        check_harm_flat(ctx, [(rng.randint(0, 5), rng.randint(0, 7)) for _ in range(nl)], rng.getrandbits(40))
     # stubs of all 4096 numbers
     for num in range(4096):
         if not ctx.mine(num):
@@ -209,6 +276,8 @@ def replay(ctx, p):
     if p["kind"] == "msm":
         enc = refmodel.decode(p["identity"], payload)
         check_msm(ctx, p["identity"], enc, 1, p)
+    elif p["kind"] == "harmflat":
+        check_harm_flat(ctx, [tuple(x) for x in p["layers"]], p["seedtag"])
     elif p["kind"] == "harm":
         check_harm(ctx, refmodel.decode("4076_201", payload), p)
     else:
